@@ -35,6 +35,9 @@ class FileModel(Model):
         fname = call_name(v)
         if fname in PURE_PATH_FUNCS or name in PURE_PATH_FUNCS:
             return ()
+        if name == 'os.fdopen':
+            # also a ValueError for an impossible mode/buffering combination (e.g. unbuffered text I/O)
+            return ('OSError', 'ValueError')
         if name.startswith('os.') or name.startswith('fcntl.') or name.startswith('shutil.'):
             return ('OSError',)
         if name in ('open', 'io.open'):
@@ -474,9 +477,36 @@ def check_c04(ctx):
         mod.resolve_name(call_name(rets[0].value)) == 'AtomicSaver' and \
         [txt(a) for a in rets[0].value.args] == ['dest_path'] and \
         [(k.arg, txt(k.value)) for k in rets[0].value.keywords] == [(None, 'kwargs')]
-    ctx.ob('C04.T17', MOD + '.atomic_save', 'atomic_save(dest_path, **kwargs) is AtomicSaver(dest_path, **kwargs)',
-           ok, loc=f.loc)
+    # ... with the caller's options untouched (no option is defaulted or rewritten on the way)
+    kwname = f.node.args.kwarg.arg if f.node.args.kwarg else None
+    touched = [n for n in ast.walk(f.node) if kwname and (
+        (isinstance(n, ast.Call) and isinstance(n.func, ast.Attribute) and txt(n.func.value) == kwname and
+         n.func.attr in ('setdefault', 'update', 'pop', 'popitem', 'clear', '__setitem__')) or
+        (isinstance(n, ast.Subscript) and isinstance(n.ctx, (ast.Store, ast.Del)) and txt(n.value) == kwname) or
+        (isinstance(n, ast.Name) and n.id == kwname and isinstance(n.ctx, ast.Store)))]
+    ctx.ob('C04.T17', MOD + '.atomic_save', 'atomic_save(dest_path, **kwargs) is AtomicSaver(dest_path, **kwargs) with the options untouched',
+           ok and not touched, loc=loc_of(f, touched[0]) if touched else f.loc, detail=txt(touched[0]) if touched else '')
+    # the safe defaults: an existing part file is never reused or removed unless asked for
+    init = prog.func(CLS + '.__init__')
+    folder = Folder(mod)
+    for opt, want in (('overwrite_part', False),):
+        pops = [n for n in ast.walk(init.node) if isinstance(n, ast.Call) and isinstance(n.func, ast.Attribute) and
+                n.func.attr in ('pop', 'get') and n.args and isinstance(n.args[0], ast.Constant) and n.args[0].value == opt]
+        if not pops:
+            ctx.unknown('C04.T17', CLS + '.__init__', 'option %s is not read with pop/get' % opt, init.loc)
+            continue
+        for c in pops:
+            try:
+                d = folder.fold(c.args[1]) if len(c.args) > 1 else None
+            except Unknown:
+                d = '?'
+            ctx.ob('C04.T17', CLS + '.__init__', 'option %s defaults to %r' % (opt, want), d is want or d == want and type(d) is type(want),
+                   loc=loc_of(init, c), detail='default %r' % (d,))
     return C
+
+
+def loc_of(fn, node):
+    return '%s:%d' % (fn.module.relpath, getattr(node, 'lineno', fn.node.lineno))
 
 
 def derives_from_dest(w, op, expr, folder):
